@@ -11,10 +11,10 @@ import (
 
 func init() {
 	register(&propDef{
-		ID:    "C15",
-		Level: "other",
+		ID:      "C15",
+		Level:   "other",
 		Explain: "Configuration loading, decided structurally: (R1) for every flag registration f.<T>Var(&cfg.P, name, default, usage) in config.load the default is defaultConfig.P for the same field path P (exceptions are a frozen, reasoned table), no two flags bind the same variable, and no two flag names collide case-insensitively (the environment lookup upper-cases them); (R2) in FlagSet.ParseFlags the command line is parsed first, flags set there are marked before the fallback pass, the fallback closure returns at once for a marked flag, looks the environment up (prefixes in slice order) before the properties, and every source that supplies a value marks the flag, assigns through FlagSet.Set (the same flag.Value.Set the command line uses) and returns; (R3) config.Load passes the prefixes [\"FABIO_\", \"\"] in that order, environment names are ToUpper(prefix + Replace(name, \".\", \"_\")) and the environment map is keyed by ToUpper(name); (P*) partial operations reachable from config.Load (Split/SplitN indices, slice bounds from Index*) are guarded; (V1) every int option that flows into an allocation size, channel capacity or status code has a range check in load (error return) or a clamp dominating the sink; (V2) values built from configuration at start-up are not used on the path on which their constructor's error was observed and only logged. (V3) enumerated options are validated raw against exactly the keys of the registries they index. (V1, extended) the range check of an option that sizes an allocation dominates the successful return of load, i.e. is not conditional on another option; Not decided: equality of the resulting Config across sources for every value of every type (behaviour of flag.Value.Set per type; R2 shows all sources use it).",
-		Run:   runC15,
+		Run:     runC15,
 		Trusted: []string{"package flag: Visit visits flags set on the command line, VisitAll all flags, Set goes through flag.Value.Set", "magiconair/properties.Get"},
 		Mutants: []mutant{
 			{Name: "glob cache size validated only when glob matching is on", File: "config/load.go", Old: "\tif cfg.GlobCacheSize < 0 {", New: "\tif !cfg.GlobMatchingDisabled && cfg.GlobCacheSize < 0 {", Expect: "C15.V1"},
